@@ -1471,7 +1471,12 @@ def run_large_case(name, thorough, tmp):
             if how == "csv":
                 return csv_roundtrip_problems(t, tmp, "large")
             res = int(how.split(":")[1])
-            return matrix_roundtrip_problems(t) + rich_matrix_problems(t) + array_explicit_problems(t, res)
+            # the array-frame path goes through pandas Timestamps (limit 2262-04-11): keep that part inside
+            # 1970-01 .. 2250-12; the Matrix parts take the whole triangle
+            from bermuda import Triangle
+
+            ta = Triangle([c for c in t if c.evaluation_date.year <= 2250 and c.period_start.year >= 1970])
+            return matrix_roundtrip_problems(t) + rich_matrix_problems(t) + array_explicit_problems(ta, res)
     return [f"large case {name} no longer exists"]
 
 
